@@ -8,7 +8,8 @@ import os, re, subprocess, sys, hashlib
 
 VERIF = os.path.dirname(os.path.dirname(os.path.dirname(os.path.abspath(__file__))))
 REPO = os.environ.get("VERIF_REPO", "/repo")
-BUILD = os.path.join(VERIF, "build")
+BUILD = os.path.join(VERIF, "build") if REPO == "/repo" else \
+    os.path.join(VERIF, "build", "alt-" + hashlib.sha1(REPO.encode()).hexdigest()[:8])   # scratch trees get their own objects
 GUARD = "ZVBI_VERIF"
 
 COMMON = ["-g", "-O1", "-fno-omit-frame-pointer", "-DHAVE_CONFIG_H", "-D_REENTRANT",
